@@ -27,10 +27,10 @@ try:
 except Exception:       # a rename degrades the observable instead of raising
     pass
 
-CONTENT = ('str', 'bytes', 'list', 'yield', 'iter', 'file', 'wsgi_list', 'wsgi_gen', 'wsgi_write')
+CONTENT = ('str', 'bytes', 'list', 'yield', 'iter', 'file', 'rstream', 'wsgi_list', 'wsgi_gen', 'wsgi_write')
 ERRORS = ('none', 'forbidden', 'redirect', 'raise', 'yield0')   # yield0: generator handler that never yields
 WSGI = ('wsgi_list', 'wsgi_gen', 'wsgi_write')
-ITER = ('iter', 'file', 'wsgi_gen')       # body is an iterator whose length prepare() does not compute
+ITER = ('iter', 'file', 'rstream', 'wsgi_gen')       # body is an iterator whose length prepare() does not compute
 REQ_COOKIES = ['a=1', 'b=2']              # Cookie: a=1; b=2 is echoed by Response.prepare as Set-Cookie lines
 APP_COOKIE = 'c=x; Path=/'
 
@@ -147,6 +147,13 @@ class Root(Controller):
             return res
         if k == 'file':
             return io.BytesIO(b''.join(ps))
+        if k == 'rstream':
+            src = ScriptedStream([piece_bytes(p) for p in h['chunks']])
+            if h.get('stream'):
+                return src                  # Body.__set__ wraps it in file_generator and sets Response.stream
+            res.body = src
+            res.stream = False              # not streamed: _on_response joins the generator's pieces
+            return res
         if k == 'none':
             return None
         if k == 'forbidden':
@@ -161,11 +168,64 @@ def _gen(ps):
         yield p
 
 
+def expected_body(h):
+    """the body bytes the application produced; for a stream (kind rstream: an object with read() whose successive
+    reads return the pieces) everything read() returns until it returns an empty result"""
+    out = []
+    for p in h['chunks']:
+        b = piece_bytes(p)
+        if h['kind'] == 'rstream' and not b:
+            break
+        out.append(b)
+    return b''.join(out)
+
+
 def app_cl_value(h):
     """Content-Length the application sets itself: 'true' = the real length, anything else verbatim"""
     if h['cl'] == 'true':
-        return str(len(b''.join(piece_bytes(p) for p in h['chunks'])))
+        return str(len(expected_body(h)))
     return h['cl']
+
+
+class ScriptedStream:
+    """a body with a read() method whose reads may be short (pipe, raw socket, decompressor): read(n) returns the
+    next scripted piece (at most n bytes of it), an empty piece or the end of the script reads as b''"""
+
+    def __init__(self, pieces):
+        self.q = list(pieces)
+        self.closed = False
+
+    def read(self, n=-1):
+        if not self.q:
+            return b''
+        p = self.q[0]
+        if n is None or n < 0 or len(p) <= n:
+            self.q.pop(0)
+            return p
+        self.q[0] = p[n:]
+        return p[:n]
+
+    def close(self):
+        self.closed = True
+
+
+def reads_coq(pieces):
+    """the read(BUFSIZE) results of a ScriptedStream over the pieces, as Coq terms (script order, an over-long
+    piece comes back in BUFSIZE slices); the exhausted source's empty read closes the list"""
+    out = []
+    for p in pieces:
+        t, pat, n = p
+        pb = pat.encode('utf-8') if t == 's' else pat.encode('latin1')
+        total = len(pb) * n
+        if total <= BUFSIZE:
+            out.append(piece_coq(p))
+        elif len(pb) == 1:
+            full, rest = divmod(total, BUFSIZE)
+            out += ['(repN %d%%N %s)' % (BUFSIZE, nlist(pb))] * full + (['(repN %d%%N %s)' % (rest, nlist(pb))] if rest else [])
+        else:
+            b = pb * n
+            out += [nlist(b[j:j + BUFSIZE]) for j in range(0, total, BUFSIZE)]
+    return out + ['[]%N']
 
 
 def wsgi_app(environ, start_response):
@@ -315,6 +375,9 @@ class C15(Prop):
                 h['cl'] = 'true'          # e.g. tools.serve_file, WSGI applications: own Content-Length on an iterator
             elif kind not in ITER and kind != 'wsgi_write' and r < 0.15:
                 h['cl'] = rng.choice(['999', '0', 'true'])     # overwritten by prepare() for sized bodies
+            if kind == 'rstream':
+                h['chunks'] = self._read_script(rng)
+                h['stream'] = rng.random() < 0.75
             if kind == 'iter':
                 h['stream'] = rng.random() < 0.6
             elif kind in ('str', 'bytes', 'list') and rng.random() < 0.12:
@@ -324,6 +387,22 @@ class C15(Prop):
         if kind not in WSGI and rng.random() < 0.25:
             h['cookie'] = True
         return h
+
+    READ_SCRIPTS = [            # sizes of what successive read(BUFSIZE) calls return; 0 = an empty read (end of the body)
+        [1000, 5000], [1, 1, 1, 1, 1, 1], [BUFSIZE, BUFSIZE], [2 * BUFSIZE], [], [3, 1, 4], [5, 0, 7], [BUFSIZE - 1, 1, BUFSIZE + 1],
+        [BUFSIZE], [1, BUFSIZE], [2, 3 * BUFSIZE, 2], [0], [700, 700, 700, 0, 9]]
+
+    @staticmethod
+    def _script_pieces(sizes):
+        return [['b', chr(97 + i % 26), n] for i, n in enumerate(sizes)]
+
+    def _read_script(self, rng):
+        if rng.random() < 0.5:
+            return self._script_pieces(rng.choice(self.READ_SCRIPTS))
+        sizes = [rng.choice([1, 2, 3, 17, 1000, BUFSIZE - 1, BUFSIZE, BUFSIZE + 1, 5000]) for _ in range(rng.randint(0, 5))]
+        if sizes and rng.random() < 0.15:
+            sizes.insert(rng.randrange(len(sizes) + 1), 0)
+        return self._script_pieces(sizes)
 
     def _req(self, rng, h):
         r = {'m': rng.choice(['GET', 'GET', 'HEAD']), 'v': rng.choice(['1.1', '1.1', '1.0']),
@@ -336,12 +415,12 @@ class C15(Prop):
         cases = []
         statuses = STATUSES if tier == 'thorough' else [None, 204, 205, 304, 101, 413, 299]
         kinds = [('str', False), ('bytes', False), ('list', False), ('yield', False), ('iter', False), ('iter', True),
-                 ('file', False), ('none', False), ('forbidden', False), ('redirect', False), ('raise', False), ('yield0', False)]
+                 ('file', False), ('rstream', True), ('none', False), ('forbidden', False), ('redirect', False), ('raise', False), ('yield0', False)]
         if tier == 'thorough':
             kinds += [('wsgi_list', False), ('wsgi_gen', False), ('wsgi_write', False)]
         bodies = {'str': [['s', 'h\xe9llo', 1]], 'bytes': [['b', 'ab\xff', 1]], 'list': [['s', 'a', 1], ['b', '', 0], ['b', 'bc', 1]],
                   'yield': [['s', 'a', 1], ['s', 'b', 1]], 'iter': [['s', '', 0], ['s', 'abc', 1], ['b', '', 0], ['b', 'de', 1]],
-                  'file': [['b', 'xyz', 1]], 'wsgi_list': [['b', 'ab', 1], ['b', 'c', 1]],
+                  'file': [['b', 'xyz', 1]], 'rstream': [['b', 'ab', 1], ['b', 'c', 1]], 'wsgi_list': [['b', 'ab', 1], ['b', 'c', 1]],
                   'wsgi_gen': [['b', '', 0], ['b', 'abc', 1], ['s', 'de', 1]], 'wsgi_write': [['s', 'hi', 1], ['s', '!', 1]]}
         self._bodies = bodies
         for (kind, st), status, v, conn, m in itertools.product(kinds, statuses, ['1.1', '1.0'], [None, 'close', 'keep-alive'],
@@ -381,6 +460,16 @@ class C15(Prop):
                 r['cookie'] = True
                 h['cookie'] = kind not in WSGI and v == '1.1'
             cases.append({'reqs': [r, {'m': 'GET', 'v': '1.1', 'conn': None, 'h': self._handler(rng, 'str', True)}]})
+        # bodies with a read() method whose reads are short, trickle, hit the chunk size exactly, end early ...
+        for sizes, v, st in itertools.product(self.READ_SCRIPTS, ['1.1', '1.0'], [True, False]):
+            h = {'kind': 'rstream', 'tag': '5', 'status': None, 'chunks': self._script_pieces(sizes), 'stream': st}
+            cases.append({'reqs': [{'m': 'GET', 'v': v, 'conn': 'keep-alive', 'h': h},
+                                   {'m': 'GET', 'v': v, 'conn': None, 'h': self._handler(rng, 'str', True)}]})
+        for sizes in ([1000, 5000], [3, 1, 4]):
+            h = {'kind': 'rstream', 'tag': '6', 'status': None, 'chunks': self._script_pieces(sizes), 'stream': True, 'cl': 'true'}
+            for v, m in (('1.0', 'GET'), ('1.1', 'HEAD')):
+                cases.append({'reqs': [{'m': m, 'v': v, 'conn': 'keep-alive', 'h': h},
+                                       {'m': 'GET', 'v': v, 'conn': None, 'h': self._handler(rng, 'str', True)}]})
         for kind in ('none', 'raise', 'yield0', 'yield', 'list'):
             h = {'kind': kind, 'tag': '4', 'status': None, 'chunks': self._bodies.get(kind, []), 'stream': False, 'cookie': True}
             cases.append({'reqs': [{'m': 'GET', 'v': '1.1', 'conn': None, 'cookie': True, 'h': h}]})
@@ -492,6 +581,9 @@ class C15(Prop):
                 chunks = [nlist(txt.encode('utf-8'))]
             else:
                 chunks = ['[]%N']
+        elif k == 'rstream':
+            sized, stream = False, bool(h.get('stream'))
+            chunks = reads_coq(h['chunks'])
         elif k == 'file':
             sized, stream = False, True
             b = b''.join(piece_bytes(p) for p in h['chunks'])
@@ -516,11 +608,12 @@ class C15(Prop):
             chunks = ['(repN %d%%N [120]%%N)' % n] if n else []
         reason = HTTP_STATUS_CODES.get(status, '')
         return ('{| v11 := %s; head := %s; status := %d%%N; reason := %s; close0 := %s; pre := [%s]; cookies := [%s]; '
-                'sized := %s; stream := %s; chunks := [%s] |}') % (
+                'sized := %s; stream := %s; chunks := %s |}') % (
             'true' if r['v'] == '1.1' else 'false', 'true' if r['m'] == 'HEAD' else 'false', status, bytes_coq(reason.encode()),
             'true' if close0 else 'false', '; '.join('(%s, %s)' % (bytes_coq(a.encode()), bytes_coq(b.encode())) for a, b in pre),
             '; '.join(bytes_coq(x.encode()) for x in cookies),
-            'true' if sized else 'false', 'true' if stream else 'false', '; '.join(chunks))
+            'true' if sized else 'false', 'true' if stream else 'false',
+            ('file_gen [%s]' if k == 'rstream' else '[%s]') % '; '.join(chunks))
 
     def _modelled(self, c, obs):
         if isinstance(obs, dict):
@@ -625,7 +718,7 @@ class C15(Prop):
             exp_status = h['status'] if h['status'] is not None else 200
             if status != exp_status:
                 return 'status %d, application set %d' % (status, exp_status)
-            exp = b''.join(piece_bytes(p) for p in h['chunks'])
+            exp = expected_body(h)
             if r['m'] == 'HEAD' or NOBODY_PROP(status):
                 if body != b'' or consumed != len(data):
                     return 'HEAD/1xx/204/304 response carries %d body bytes' % (len(data) - consumed + len(body))
